@@ -29,6 +29,12 @@ CLAIM = dict(
           "overflow the source type or the narrower dtype. "
           "A view is a value over its leaf arrays: a 'deferred evaluation' stream reduces / accumulates temporary operand views built inside a noinline "
           "helper, returned by value and read only after a second call of the helper (run-time shaped and fixed-shape operands, ndebug and ASan). "
+          "Initial values of ANOTHER type than the element / result type (int initial on fractional doubles, int32 initial on int64 data beyond 2^32, float "
+          "on double, double on int) through sum / prod / amax / amin / view::reduce with an axis, an axis list + run-time keepdims, and None; and every "
+          "OVERLOAD ARITY of the wrappers — view::sum / prod (2..5 arguments, dtype / initial present or None), amax / amin (1..5), reduce_add / "
+          "reduce_multiply (2..5), cumsum / cumprod / accumulate_add / accumulate_multiply (2..3), mean (2..4), var / stddev (2..5), array::sum / prod / "
+          "cumsum / cumprod / mean — each called with int8 data that leaves int8, dtype int32 (float64), a non-identity initial, keepdims True, the result "
+          "element type tag compared. "
           "An explicitly requested result dtype (float64 / int32 on int64 data) and uint8 data (the accumulator keeps the operand's element type: "
           "f = op mod 256, an instance of the arbitrary f) are corresponded as well. "
           "vector_norm (double data, relative tolerance 1e-9; the model composes the views as mean.hpp / var.hpp do with the modelled "
@@ -59,7 +65,7 @@ KDS = ["def", "rt0", "rt1", "ct0", "ct1"]
 def drivers(tier):
     return {"c08": [("c08.cpp", "ndebug", ()), ("c08.cpp", "asan", ("-DVD_LIGHT",))],
             # two translation units answer the same case stream (each says "unsupported" for the other's ops): built in parallel
-            "c08s": [("c08_stat.cpp", "ndebug", ()), ("c08_types.cpp", "ndebug", ())]}
+            "c08s": [("c08_stat.cpp", "ndebug", ()), ("c08_types.cpp", "ndebug", ()), ("c08_forms.cpp", "ndebug", ())]}
 
 
 def L(v): return "L:" + ",".join(str(x) for x in v)
@@ -266,6 +272,52 @@ def gen_cases(rng, tier):
         data = typed_data(src, dt, fn == "cumprod", size(shape))
         axis = rng.randrange(d); axis = axis - d if rng.random() < 0.4 else axis
         out.append(("dtype-accumulate", "tacc S:%s S:%s S:%s %s I:%d" % (fn, src, dt, A(shape, data), axis), "c08s"))
+    # (4) an initial value of ANOTHER type than the element / result type, every reduce entry point and axis form; data chosen so that
+    #     a partial result truncated to the initial's type shows (fractional doubles with an int initial; int64 beyond 2^32 with an int32 initial)
+    for i in range(240 if tier == "quick" else 1600):
+        src, it = [("f64", "i32"), ("i64", "i32"), ("f64", "f32"), ("i32", "f64")][i % 4]
+        fn = ["sum", "prod", "amax", "amin", "radd"][(i // 4) % 5]; af = ["int", "list", "none"][(i // 20) % 3]
+        shape = rng.choice(tshapes); d = len(shape); cnt = size(shape)
+        if src == "f64": data = [rng.choice([-1, 1]) * rng.choice([1, 2, 3, 5, 6, 7, 9]) for _ in range(cnt)] if fn == "prod" else [rng.randint(-19, 19) for _ in range(cnt)]
+        elif src == "i64":
+            if fn == "prod":
+                data = [rng.choice([1, -1]) for _ in range(cnt)]; data[rng.randrange(cnt)] = 70000; data[rng.randrange(cnt)] = 100003
+            else: data = [rng.choice([-1, 1]) * rng.randint(3 * 10**9, 7 * 10**9) for _ in range(cnt)]
+        else: data = [rng.randint(1, 4) for _ in range(cnt)] if fn == "prod" else [rng.randint(-1000, 1000) for _ in range(cnt)]
+        if af == "int": a = rng.randrange(d); ax = "I:%d" % (a - d if rng.random() < 0.4 else a)
+        elif af == "list": sub = rng.sample(range(d), rng.randint(1, d)); ax = L([x - d if rng.random() < 0.5 else x for x in sub])
+        else: ax = "N"
+        n = rng.choice([0, 1, 2, 3, -3, 5]) if fn != "prod" else rng.choice([1, 2, 3, -1])
+        out.append(("initial-type", "tini S:%s S:%s S:%s S:%s %s %s I:%d" % (fn, src, it, af, A(shape, data), ax, n), "c08s"))
+    # (5) every overload arity of the reduction / accumulation wrappers (view:: and array::): form -> canonical (fn, dtype, keepdims, initial)
+    FORMS = {}
+    for fn, pre in (("sum", "sum"), ("prod", "prod"), ("sum", "radd"), ("prod", "rmul"), ("sum", "asum"), ("prod", "aprod")):
+        FORMS[pre + "2"] = (fn, "none", "def", False); FORMS[pre + "3"] = (fn, "i32", "def", False)
+        FORMS[pre + "4"] = (fn, "i32", "def", True); FORMS[pre + "5"] = (fn, "i32", "ct1", True)
+    for pre in ("sum", "prod"): FORMS[pre + "4n"] = (pre, "none", "def", True); FORMS[pre + "5n"] = (pre, "none", "ct1", False)
+    for fn in ("amax", "amin"):
+        FORMS[fn + "1"] = (fn, "none", "def", False); FORMS[fn + "2"] = (fn, "none", "def", False); FORMS[fn + "3"] = (fn, "i32", "def", False)
+        FORMS[fn + "4"] = (fn, "i32", "def", True); FORMS[fn + "5"] = (fn, "i32", "ct1", True)
+    for fn, pres in (("cumsum", ("cumsum", "accadd", "acumsum")), ("cumprod", ("cumprod", "accmul", "acumprod"))):
+        for pre in pres: FORMS[pre + "2"] = (fn, "none", "def", False); FORMS[pre + "3"] = (fn, "i32", "def", False)
+    for pre in ("mean", "amean"): FORMS[pre + "2"] = ("mean", "none", "def", False); FORMS[pre + "3"] = ("mean", "f64", "def", False); FORMS[pre + "4"] = ("mean", "f64", "ct1", False)
+    for fn, pre in (("var", "var"), ("std", "std")):
+        FORMS[pre + "2"] = (fn, "none", "def", False); FORMS[pre + "3"] = (fn, "f64", "def", False)
+        FORMS[pre + "4"] = (fn, "f64", "def", "ddof"); FORMS[pre + "5"] = (fn, "f64", "ct1", "ddof")
+    for rep in range(2 if tier == "quick" else 10):
+        for form, (fn, dt, kd, extra) in sorted(FORMS.items()):
+            shape, axis = rng.choice([((4, 2), 0), ((4, 2), -2), ((2, 4), 1), ((2, 4), -1)])
+            other = 2
+            if fn in ("mean", "var", "std"):
+                cols = [(rng.randint(-20, 20), rng.randint(1, 9)) for _ in range(other)]            # (a, k): values a, a+2k, a, a+2k
+                col = lambda c: [cols[c][0], cols[c][0] + 2 * cols[c][1], cols[c][0], cols[c][0] + 2 * cols[c][1]]
+            elif fn in ("prod", "cumprod"): col = lambda c: [rng.choice([-1, 1]) * rng.randint(5, 12) for _ in range(4)]
+            else: col = lambda c: [rng.randint(60, 120) * (1 if rng.random() < 0.8 else -1) for _ in range(4)]
+            cs = [col(c) for c in range(other)]
+            data = [cs[j][i] for i in range(4) for j in range(2)] if shape == (4, 2) else [cs[i][j] for i in range(2) for j in range(4)]
+            ax = "N" if form in ("amax1", "amin1") else "I:%d" % axis
+            init = "I:%d" % rng.choice([7, 3, -5, 120]) if extra is True else "N"
+            out.append(("overload-forms", "form S:%s S:%s S:%s S:%s %s %s %s I:%d" % (form, fn, dt, kd, A(shape, data), ax, init, 1 if extra == "ddof" else 0), "c08s"))
     # outside the quantifier: invalid / duplicate axes (C15's subject): spec "unspecified", never judged
     for line in ["reduce S:add S:reduce S:vec S:def S:dyn A:2,3:1,2,3,4,5,6 L:0,0 N",
                  "reduce S:add S:named S:int S:rt1 S:dyn A:2,3:1,2,3,4,5,6 I:2 N",
@@ -300,12 +352,18 @@ def distribution(streams):
 
 def _split(r):
     if not r.startswith("ok ") or ";" not in r: return None
+    if "; view=" in r: r = r[:r.index("; view=")]          # the element type tag is compared separately (exactly)
     shp, el = r[3:].split(";", 1)
     return shp.strip(), [x for x in el.strip().split(",") if x != ""]
 
 
+def _tag(r):
+    return r[r.index("; view="):].strip() if "; view=" in r else ""
+
+
 def equal(a, b):
     if a == b or " ".join(a.split()) == " ".join(b.split()): return True
+    if _tag(a) != _tag(b): return False
     x, y = _split(a), _split(b)
     if x is None or y is None or x[0] != y[0] or len(x[1]) != len(y[1]): return False
     for u, v in zip(x[1], y[1]):
